@@ -9,12 +9,7 @@ from ..lifecycle import TAB
 
 LEVEL = 'other'
 EXPLANATION = (
-    'Static analysis (typestate of the tableau flag word). The verdict properties and the step-limit predicate are '
-    'folded from source over every flag combination; every write to Tableau.flag in the package is enumerated with its '
-    'dominating conditions and compared with the reviewed who-may-write table (a new writer, a missing guard or a '
-    'clear of a bit other than PREMATURE is a finding); step()/finish() idempotence guards, the dominance of the '
-    'step-limit test over rule application, the order set-TIMED_OUT -> finish() -> raise, the started-guards of the '
-    'setters and of build_trunk, and the @locking discipline of the rule collections are checked structurally.')
+    'Static analysis (typestate of the tableau flag word). The verdict properties and the step-limit predicate are folded from source over every flag combination; every write to Tableau.flag in the package is enumerated with its dominating conditions and compared with the reviewed who-may-write table (a new writer, a missing guard or a clear of a bit other than PREMATURE is a finding); step()/finish() idempotence guards, the dominance of the step-limit test over rule application, the order set-TIMED_OUT -> finish() -> raise, the started-guards of the setters and of build_trunk, and the @locking discipline of the rule collections are checked structurally. (R6) StopWatch folded as a state machine: elapsed_ms() is the sum of all intervals since the last reset.')
 TRUSTED = ['CPython ast', 'sa.minieval', 'sa.astq.guards_of (dominating-condition computation over if/early-exit idioms)']
 ASSUMPTIONS = ['wall-clock behaviour is declined', 'events are delivered synchronously by EventEmitter (not analysed)']
 
